@@ -16,7 +16,7 @@ from sa.guards import GuardView
 from sa.index import AnalysisError
 from sa.report import Ctx
 from sa.stutter import flag_loops_without_exit, stutter_paths
-from sa.undefined import implicit_none_paths, possibly_undefined, stride_conflicts, undefined_names, uninitialised_fields
+from sa.undefined import implicit_none_paths, optional_truthiness, possibly_undefined, stride_conflicts, undefined_names, uninitialised_fields
 
 HERE = os.path.dirname(os.path.dirname(os.path.abspath(__file__)))
 
@@ -191,6 +191,10 @@ def validators_used(ctx: Ctx, mods, oid: str):
 # property that has sat.py among its anchor files leaves that loop to C02
 DEFAULT_SKIP_STUTTER = ("solvor/sat.py",)
 
+# confirmed by reading: the one numeric optional parameter whose 0 is meant to read like None
+R46_ALLOWED = {
+    ("solvor/dlx.py", "solve_exact_cover", "max_solutions"): "max_solutions=0 and max_solutions=None both mean 'no limit on the number of covers'; the three tests are `max_solutions and len(solutions) >= max_solutions`",
+}
 # confirmed by reading: the one place where a caller deliberately hands a differently named parameter of its own
 R42_ALLOWED = {
     ("solvor/milp.py", "_lns_improve", "iterations", "max_iter"): "the LNS pass count of solve_milp is the iteration budget of the inner lns() call; `max_iter` of the enclosing scope is the branch-and-bound budget",
@@ -342,6 +346,20 @@ def generic_sweeps(ctx: Ctx, stutter: bool = True, skip_stutter_modules: tuple =
                     n_sent += 1
                     ctx.ob(g + "9", "R41 OPTIONAL-MEANS-NONE", f, f"optional parameter `{prm.arg}` defaults to None", False, f"it defaults to the private sentinel `{d.id}`: a caller that passes None explicitly (the 'not given' value of every other optional parameter here, forwarded as such by wrappers) now has None taken as a real value", node=d)
     ctx.ob(g + "9", "R41 OPTIONAL-MEANS-NONE", None, f"no public function of the anchor files replaces None by a private sentinel as the 'not given' default ({n_opt} optional parameters default to None)", n_sent == 0, "", rel=mods[0].rel, fname="<anchor files>")
+    # R46: a numeric or state-valued optional parameter is compared with None, never tested for truthiness
+    n_truthy = 0
+    for m in mods:
+        for q in sorted(m.funcs):
+            f = m.funcs[q]
+            if f.parent is not None:
+                continue  # closures are walked with their top-level function
+            for pname, ann, node in optional_truthiness(f.node):
+                if (m.rel, f.qualname, pname) in R46_ALLOWED:
+                    ctx.ob(g + "13", "R46 OPTIONAL-TRUTHINESS", f, f"`{pname}: {ann}` tested for truthiness", False, R46_ALLOWED[(m.rel, f.qualname, pname)], node=node, severity="note")
+                    continue
+                n_truthy += 1
+                ctx.ob(g + "13", "R46 OPTIONAL-TRUTHINESS", f, f"`{pname}: {ann}` is compared with None, not tested for truthiness", False, f"line {node.lineno}: 0 (a seed, a node index, a limit) or a falsy state is a legal value and is treated like None", node=node)
+    ctx.ob(g + "13", "R46 OPTIONAL-TRUTHINESS", None, "no numeric or state-valued optional parameter of the anchor files is tested for truthiness", n_truthy == 0, "", rel=mods[0].rel, fname="<anchor files>")
     # R45: a flat table addressed as t[a * s + b] is laid out with one stride
     n_stride = 0
     for m in mods:
